@@ -25,6 +25,10 @@ type Period struct {
 	FailKind  string `json:"fail_kind,omitempty"`
 	Twin bool `json:"twin,omitempty"` // the builder is reused for a second controller over another server: each controller keeps listing ITS client
 	WatchFaults bool `json:"watch_faults,omitempty"` // watch streams end and connects fail while relisting goes on (the retry timer and the relist reset interleave)
+	// GateUs > 0: the controller-level filter holds the controller up for that long
+	// whenever a certain object changes (every other period or so): list results
+	// wait to be consumed, and the next list is due a period after the CONSUMPTION
+	GateUs     int   `json:"gate_us,omitempty"`
 	BusyCostUs int   `json:"busy_cost_us,omitempty"` // > 0: the root filter costs this much per object and a writer keeps the watch saturated (two writes per cost) for the whole run: list results must still be taken
 	Sim       SimCfg `json:"sim"`
 }
@@ -86,6 +90,16 @@ func genC13(g GenCtx) interface{} {
 		sc.VaryLat = false
 		sc.CloseAtMs = rng.Intn(2*sc.PeriodMs + 1)
 	}
+	gate := g.Idx%10 == 3 && sc.PeriodMs < 365*24*3600*1000
+	if gate {
+		sc.PeriodMs = pickInt(rng, 50, 100, 1000)
+		sc.LatPreMs, sc.LatPostMs = 0, pickInt(rng, 0, 0, sc.PeriodMs/4)
+		sc.Periods = 8 + rng.Intn(10)
+		sc.GateUs = sc.PeriodMs * 10 * pickInt(rng, 30, 60, 150, 300) // 0.3 .. 3 periods
+		sc.BusyCostUs = 0
+		sc.FailAt, sc.FailKind, sc.VaryLat, sc.Twin, sc.WatchFaults = 0, "", false, false, false
+		sc.CloseAtMs = rng.Intn(2*sc.PeriodMs + 1)
+	}
 	// consumption delay: the controller loop / lister / ticker starved by a drawn factor
 	sc.Sim = SimCfg{Strategy: randStrategy(rng, []string{"Create>c.run", "newLister>l.run", "newTicker>t.run", "_lister.list>func", "newCache>c.run"}),
 		NewTimers: rng.Intn(3) == 0, PermuteMaps: true, MaxSteps: 120000, EstSteps: 2000}
@@ -94,6 +108,10 @@ func genC13(g GenCtx) interface{} {
 	if sc.PeriodMs >= 365*24*3600*1000 {
 		sc.Sim.Strategy.StallPermille = 0
 		sc.WatchFaults = false
+	}
+	if gate {
+		sc.Sim.Strategy = detsim.Strategy{Kind: "uniform"}
+		sc.Sim.MaxSteps = 300000
 	}
 	if busy {
 		// fairness of the controller's select is the point: plain random choice
@@ -130,6 +148,12 @@ func runC13(sci interface{}) {
 	if busyCost > 0 {
 		rootFilter = world.FilterSpec{Op: "slow", V: itoa(sc.BusyCostUs)}
 	}
+	gateCost := time.Duration(sc.GateUs) * time.Microsecond
+	if gateCost > 0 {
+		rootFilter = world.FilterSpec{Op: "gate", V: itoa(sc.GateUs)}
+		world.StaticEvals = nil
+		srv.Apply(world.Spec{NS: "a0", Name: "static"}) // (sorts first: lists are reconciled in order, so the filter sees it the moment a result is taken)
+	}
 	h := world.NewH(srv, rootFilter, per, false)
 	var twinSrv *world.Server
 	if sc.Twin {
@@ -160,6 +184,17 @@ func runC13(sci interface{}) {
 		// its loop, each of which may cost one filter evaluation
 		lat += 40 * busyCost
 	}
+	if gateCost > 0 {
+		go func() {
+			for i := 0; !stopBusy; i++ {
+				time.Sleep(per + per/3)
+				srv.Apply(world.Spec{NS: "n1", Name: "gate", Labels: map[string]string{"i": itoa(i)}})
+				time.Sleep(gateCost)
+			}
+		}()
+		defer func() { stopBusy = true }()
+		lat += 2 * gateCost // a list result may wait that long for the controller, and its reconcile may meet a version of the gate object it has not seen
+	}
 	horizon := time.Duration(sc.Periods) * per
 	step := horizon / time.Duration(sc.Writes+1)
 	for i := 0; i <= sc.Writes; i++ {
@@ -178,6 +213,21 @@ func runC13(sci interface{}) {
 			return
 		}
 		detsim.Fail("controller-died", "controller shut down although no list failed: %v", h.Ctrl.Error())
+	}
+	if gateCost > 0 {
+		// each list starts no earlier than about one period after the previous
+		// result was CONSUMED (reconciled: the filter saw the object that never changes)
+		evals := world.StaticEvals
+		detsim.Count("probe:list-results-consumed-late")
+		for i := 0; i < len(evals) && i+1 < len(srv.Lists); i++ {
+			l, next := srv.Lists[i], srv.Lists[i+1]
+			if !l.Done || evals[i] < l.End {
+				detsim.Fail("infra:scenario", "list#%d: consumption noted at %v, before the call returned (%v)", l.N, evals[i], l.End)
+			}
+			if gap := next.Start - evals[i]; gap < per*9/10-time.Microsecond {
+				detsim.Fail("relist-too-early", "list#%d started %v after the result of list#%d was consumed (returned at %v, consumed at %v while the controller was held up for %v by its filter); the refresh period is %v (-10%% fuzz)\n%s", next.N, gap, l.N, l.End, evals[i], gateCost, per, srv.Summary())
+			}
+		}
 	}
 	stalls := sc.Sim.Strategy.StallPermille > 0
 	if !stalls {
@@ -214,7 +264,7 @@ func runC13(sci interface{}) {
 		closeTwin()
 	}
 	stopBusy = true
-	grace := time.Millisecond + 200*busyCost // filter evaluations in progress (an event, a relist of a few objects) are not interrupted, and the shutdown request competes with ready events
+	grace := time.Millisecond + 200*busyCost + 6*gateCost // filter evaluations in progress (an event, a relist of a few objects) are not interrupted, and the shutdown request competes with ready events
 	// and it still shuts down promptly, wherever in the cycle
 	if sc.CloseAfterSteps > 0 {
 		// shutdown-point injection by step count: lands between any two hand-offs
